@@ -60,10 +60,9 @@ def make_plan(G, events, L, fold, markov=False, warmup=None, episode=None):
     for k in order:
         s, latent, t, _ = sl[k]
         if s == steps[0]:
+            # the first step's own events are not history: the warm-up horizon does not apply to them
             if markov and k in early:
                 may.add(k)
-            elif origin is not None and t < origin:
-                may.add(k)     # slot inside the horizon, stamp before it
             else:
                 must.append(k)
         elif s < steps[0]:
